@@ -36,8 +36,9 @@ struct ScriptEncoder {
 impl Encode for ScriptEncoder {
     fn encode(&self, w: &mut dyn encode::Write, record: &Record) -> anyhow::Result<()> {
         let msg = record.args().to_string();
-        let (t, s) = msg.split_once(':').expect("t:s");
-        let (t, s): (usize, usize) = (t.parse().unwrap(), s.parse().unwrap());
+        let mut it = msg.split(':');
+        let (t, s): (usize, usize) =
+            (it.next().expect("t").parse().unwrap(), it.next().expect("s").parse().unwrap());
         let chunks = &self.table[t][s];
         for (i, c) in chunks.iter().enumerate() {
             if i > 0 {
@@ -48,6 +49,10 @@ impl Encode for ScriptEncoder {
                 }
             }
             w.write_all(c)?;
+        }
+        if msg.ends_with(":fail") {
+            // a record that cannot be rendered to its end (sequential histories, op kind 2)
+            return Err(anyhow::anyhow!("scripted encoder failure"));
         }
         Ok(())
     }
@@ -97,7 +102,7 @@ fn run_seq(c: &[Val]) -> Val {
     let mut recs: Vec<Vec<Vec<u8>>> = Vec::new();
     for op in ops {
         let op = op.l();
-        if op[0].n() == 0 {
+        if op[0].n() == 0 || op[0].n() == 2 {
             recs.push(chunks_of(&op[1]));
         }
     }
@@ -123,6 +128,11 @@ fn run_seq(c: &[Val]) -> Val {
                 format!("0:{}", seq)
             };
             let ok = do_append(app.as_ref().unwrap(), &msg);
+            seq += 1;
+            out.push(snapshot(ok, &path));
+        } else if op[0].n() == 2 {
+            // the scripted encoder writes the chunks, then returns Err (scripted encoder only)
+            let ok = do_append(app.as_ref().unwrap(), &format!("0:{}:fail", seq));
             seq += 1;
             out.push(snapshot(ok, &path));
         } else {
